@@ -2,7 +2,7 @@
    reproduces the game; Game::from_pgn never panics on any byte string. *)
 Require Import LC.model.Prims LC.model.Tables LC.model.Board LC.model.Text LC.model.Fen LC.model.San LC.model.Game LC.model.Pgn
   LC.spec.Chess LC.spec.TextSpec LC.proofs.Basics LC.proofs.MoveInv LC.proofs.C05Proofs LC.proofs.C09Proofs LC.proofs.Reach LC.proofs.C10Total
-  LC.proofs.C11Proofs LC.proofs.C12Proofs LC.proofs.C13Proofs LC.proofs.C15Proofs LC.proofs.PgnMatch LC.proofs.PgnSweep LC.proofs.PgnText.
+  LC.proofs.C11Proofs LC.proofs.C12Proofs LC.proofs.C13Proofs LC.proofs.C13Flags LC.proofs.C15Proofs LC.proofs.PgnMatch LC.proofs.PgnSweep LC.proofs.PgnText.
 From Coq Require Import Lia String.
 Open Scope N_scope.
 
@@ -68,6 +68,53 @@ Proof.
   destruct C as (Em & _ & C). inversion W as [|? ? Wm Wms]; subst. cbn [combine map]. constructor.
   - apply san_string_ok; [exact Wm|exact (legal_promo_ok p m q Em)].
   - apply (IH ms mps C Wms).
+Qed.
+
+(* ---------- soundness of the import on ARBITRARY text: whatever is accepted is a game played by the rules ---------- *)
+Lemma run_app_ok l1 : forall g l2, run K g (l1 ++ l2) = run K (run K g l1) l2.
+Proof. induction l1 as [|a l1 IH]; intros g l2; [reflexivity|]. cbn [app run]. destruct (game_step K g a); apply IH. Qed.
+Lemma run_one g a g' : game_step K g a = Ok g' -> run K g [a] = g'.
+Proof. intros E. cbn [run]. rewrite E. reflexivity. Qed.
+Lemma tokens_are_actions g0 toks res g : GameGood K g0 -> from_pgn_tokens K g0 toks res = Ok g ->
+  exists acts, Forall wf_action acts /\ run K g0 acts = g.
+Proof.
+  intros G0. unfold from_pgn_tokens.
+  assert (F : forall l gc acts0, run K g0 acts0 = gc -> Forall wf_action acts0 -> forall gm,
+     fold_left (fun acc tok => g <- acc ;; om <- san_lookup K (g_pos g) tok ;; match om with None => Err EPgn | Some m => game_step K g (MakeMove m) end) l (Ok gc) = Ok gm ->
+     exists acts, Forall wf_action acts /\ run K g0 acts = gm).
+  { induction l as [|tok l IH]; intros gc acts0 R W gm E; [cbn in E; injection E as <-; eauto|]. cbn [fold_left bind] in E.
+    assert (Gc : GameGood K gc) by (rewrite <- R; apply run_never_panics; assumption).
+    destruct (san_lookup_total K (g_pos gc) tok (proj1 Gc)) as (om & El & Hl). rewrite El in E. cbn [bind] in E.
+    destruct om as [m|]; [|rewrite fold_bind_stuck in E by discriminate; discriminate].
+    destruct (Hl m eq_refl) as [_ Wm].
+    destruct (game_step K gc (MakeMove m)) as [g1| |] eqn:E1; try (rewrite fold_bind_stuck in E by discriminate; discriminate).
+    apply (IH g1 (acts0 ++ [MakeMove m])); [rewrite run_app_ok, R; apply run_one; exact E1|apply Forall_app; split; [exact W|constructor; [exact Wm|constructor]]|exact E]. }
+  intros E. apply bind_ok in E. destruct E as (gm & Em & E). destruct (F toks g0 [] eq_refl (Forall_nil _) gm Em) as (acts & Wa & Ra).
+  assert (X : forall a g', game_step K gm a = Ok g' -> (forall m, a <> MakeMove m) -> exists acts', Forall wf_action acts' /\ run K g0 acts' = g').
+  { intros a g' Ea Na. exists (acts ++ [a]). split; [apply Forall_app; split; [exact Wa|constructor; [destruct a; try exact I; exfalso; eapply Na; reflexivity|constructor]]|].
+    rewrite run_app_ok, Ra. apply run_one. exact Ea. }
+  destruct (g_status gm) eqn:Es; try (injection E as <-; eauto).
+  destruct res as [[]|]; try (injection E as <-; eauto).
+  - destruct (game_step K gm (Resign Black)) as [g'| |] eqn:E1; cbn [unwrap] in E; try discriminate. injection E as <-. apply (X _ _ E1). discriminate.
+  - destruct (game_step K gm (Resign White)) as [g'| |] eqn:E1; cbn [unwrap] in E; try discriminate. injection E as <-. apply (X _ _ E1). discriminate.
+  - destruct (game_step K gm (OfferDraw White)) as [g1| |] eqn:E1; cbn [unwrap bind] in E; try discriminate.
+    destruct (game_step K g1 AcceptDraw) as [g2| |] eqn:E2; cbn [unwrap] in E; try discriminate. injection E as <-.
+    exists (acts ++ [OfferDraw White; AcceptDraw]). split; [apply Forall_app; split; [exact Wa|repeat constructor]|].
+    rewrite run_app_ok, Ra. cbn [run]. rewrite E1, E2. reflexivity.
+Qed.
+(* every accepted import, of ANY byte string, is a game from the standard position in which every recorded move is legal by
+   the rules, every recorded position the rule successor of its predecessor, every recorded flag the rule's *)
+Theorem import_sound t g tag : from_pgn_text K t = Ok (g, tag) ->
+  exists g0 acts, default_game K = Ok g0 /\ Forall wf_action acts /\ g = run K g0 acts /\
+                  LC.proofs.C13Flags.RuleChain K (g_positions g) (g_moves g) (g_meta g) /\ GameGood K g.
+Proof.
+  unfold from_pgn_text. destruct default_ok as (b0 & g0 & Eb & G0 & Eg & Ed & _). rewrite Ed. cbn [bind].
+  destruct (moves_part t) as [body|]; [|discriminate]. intros E. apply bind_ok in E. destruct E as (g1 & E1 & E). injection E as <- _.
+  pose proof (GameGood_init K b0 g0 G0 Eg) as GG0.
+  destruct (tokens_are_actions g0 _ _ g1 GG0 E1) as (acts & Wa & Ra).
+  exists g0, acts. split; [reflexivity|]. split; [exact Wa|]. split; [symmetry; exact Ra|]. rewrite <- Ra. split.
+  - exact (LC.proofs.C13Flags.history_is_rule_game K b0 g0 acts G0 Eg Wa).
+  - apply run_never_panics; assumption.
 Qed.
 
 (* C13: the rendered move list of every game (either side moving first) consists of separately delimited tokens *)
